@@ -196,10 +196,26 @@ func sameValue(a, b interface{}) bool {
 	return false
 }
 
-func checkArgMap(what string, defs ast.ArgumentDefinitionList, args ast.ArgumentList, vars map[string]interface{}, get func() map[string]interface{}) {
+// customScalarOnly: every argument that holds an unrepresentable literal is of a
+// custom scalar type (where validation accepts any literal).
+func customScalarOnly(s *ast.Schema, defs ast.ArgumentDefinitionList, args ast.ArgumentList, vars map[string]interface{}) bool {
+	for _, d := range defs {
+		a := args.ForName(d.Name)
+		if a == nil || a.Value.Kind == ast.Variable || !hasUnrepresentable(refLiteral(a.Value, vars)) {
+			continue
+		}
+		td := s.Types[d.Type.Name()]
+		if td == nil || td.Kind != ast.Scalar || td.BuiltIn {
+			return false
+		}
+	}
+	return true
+}
+
+func checkArgMap(s *ast.Schema, what string, defs ast.ArgumentDefinitionList, args ast.ArgumentList, vars map[string]interface{}, get func() map[string]interface{}) {
 	want, bad := refArgMap(defs, args, vars)
-	// an integer literal outside int64 where validation accepts any literal (custom scalar)
-	verifrt.KnownPanic("KF-C15-int-literal-beyond-int64-panics", bad)
+	// an integer literal outside int64 at a custom scalar, where validation accepts any literal
+	verifrt.KnownPanic("KF-C15-int-literal-beyond-int64-panics", bad && customScalarOnly(s, defs, args, vars))
 	got := get()
 	verifrt.ClearKnown()
 	if bad {
@@ -217,25 +233,25 @@ func checkArgMap(what string, defs ast.ArgumentDefinitionList, args ast.Argument
 	}
 }
 
-func argMapsOf(set ast.SelectionSet, vars map[string]interface{}) {
+func argMapsOf(s *ast.Schema, set ast.SelectionSet, vars map[string]interface{}) {
 	for _, sel := range set {
 		switch x := sel.(type) {
 		case *ast.Field:
 			f := x
 			if f.Definition != nil {
-				checkArgMap("field", f.Definition.Arguments, f.Arguments, vars, func() map[string]interface{} { return f.ArgumentMap(vars) })
+				checkArgMap(s, "field", f.Definition.Arguments, f.Arguments, vars, func() map[string]interface{} { return f.ArgumentMap(vars) })
 			}
 			for _, d := range f.Directives {
 				dd := d
-				checkArgMap("directive", dd.Definition.Arguments, dd.Arguments, vars, func() map[string]interface{} { return dd.ArgumentMap(vars) })
+				checkArgMap(s, "directive", dd.Definition.Arguments, dd.Arguments, vars, func() map[string]interface{} { return dd.ArgumentMap(vars) })
 			}
-			argMapsOf(f.SelectionSet, vars)
+			argMapsOf(s, f.SelectionSet, vars)
 		case *ast.InlineFragment:
 			for _, d := range x.Directives {
 				dd := d
-				checkArgMap("directive", dd.Definition.Arguments, dd.Arguments, vars, func() map[string]interface{} { return dd.ArgumentMap(vars) })
+				checkArgMap(s, "directive", dd.Definition.Arguments, dd.Arguments, vars, func() map[string]interface{} { return dd.ArgumentMap(vars) })
 			}
-			argMapsOf(x.SelectionSet, vars)
+			argMapsOf(s, x.SelectionSet, vars)
 		}
 	}
 }
@@ -252,8 +268,8 @@ func ArgMap() {
 		vars := coercedVariables(schema, op)
 		for _, d := range op.Directives {
 			dd := d
-			checkArgMap("directive", dd.Definition.Arguments, dd.Arguments, vars, func() map[string]interface{} { return dd.ArgumentMap(vars) })
+			checkArgMap(schema, "directive", dd.Definition.Arguments, dd.Arguments, vars, func() map[string]interface{} { return dd.ArgumentMap(vars) })
 		}
-		argMapsOf(op.SelectionSet, vars)
+		argMapsOf(schema, op.SelectionSet, vars)
 	}
 }
